@@ -3,12 +3,15 @@ from . import register
 
 register(
     "C03",
-    lean_modules=["GtModel.Props.C03", "GtModel.Props.C03x", "GtModel.Props.C03m"],
+    lean_modules=["GtModel.Props.C03", "GtModel.Props.C03x", "GtModel.Props.C03m", "GtModel.Props.C03l"],
     theorems=[
         "GtModel.C03.reported_eq_sum",
         "GtModel.C03.reported_eq_sum_root",
         "GtModel.C03.three_views_agree",
         "GtModel.C03.three_views_agree_docs",
+        # the ENGINE's reported cost (operational model L3): after any run + tightening, the dump satisfies reported = sum
+        # at every level (from C05.history_independent_docs; hypotheses OrcFull, distinct keys, fkOK without key edits)
+        "GtModel.C03.engine_reported_eq_sum_docs",
         # XML / HTML elements (model GtModel.Xml.xmlEdits, stream scriptxml)
         "GtModel.C03.xml_reported_eq_sum",
         "GtModel.C03.xml_reported_eq_sum_root",
@@ -21,6 +24,11 @@ register(
     ],
     streams=["script", "scriptx", "scriptxml", "scriptmset", "script_O", "numeq"],
     assumptions=[
+        "reported_eq_sum / three_views_agree are theorems about the L2 script and have no hypothesis; the link to the cost "
+        "the ENGINE reports (bounds() after tightening) is engine_reported_eq_sum_docs = C05.history_independent_docs + "
+        "reported_eq_sum and assumes: OrcFull (every recorded answer of the assignment solver has full size "
+        "min(#from, #to); a shorter answer makes the machine stop with Err.oracle while L2's script still sums up), "
+        "distinct keys, without key edits the to-document in fkOK (D24), one solver oracle for all histories",
         "the engine has fully tightened every bound (the model is the static final script; stream `script` dumps "
         "the script after `tighten_bounds()` is exhausted)",
     ],
@@ -32,7 +40,13 @@ register(
         "for XML / HTML elements (same builder and node classes for both file types)",
         "GtModel.EditMatrix.solve_total_eq_sum / solve_endPos (proved in Proofs/EditMatrix.lean)",
     ],
-    partial="MultiSetNode with duplicate elements (library API only): reported = sum is FALSE (D21, Lean witness mset_d21_witness); "
+    partial="for kvp / fixed / ms / fk nodes of the L2 script (and XMLElementEdit / fixed child lists of the XML script) the "
+            "cost is a sum BY DEFINITION (mkCompound / xCompound): the non-definitional content is EditDistance / StringEdit "
+            "(solve_total_eq_sum) and, for JSON-family documents, engine_reported_eq_sum_docs on the operational model (under "
+            "OrcFull); there is no operational model of XMLElementEdit.bounds() — XML is tied to the sum by the scriptxml "
+            "monitor only.  three_views_agree compares two traversals of one script value (editedCost s = s.cost by "
+            "definition); the three real views are compared by the monitors.  "
+            "MultiSetNode with duplicate elements (library API only): reported = sum is FALSE (D21, Lean witness mset_d21_witness); "
             "proved: the exact characterisation (mset_reported_eq_sum_iff) and the not-cached case; the case 'no two unmatched "
             "from-elements equal' needs a sandwich lemma that is not formalised",
 )
